@@ -736,6 +736,10 @@ class ParserFactory:
     def p_example(self, p):
         """example : KEYWORD ID NL INDENT docsection example_fields DEDENT
                    | KEYWORD ID NL"""
+        if p[1] != 'example':
+            self.errors.append(
+                ("Unexpected keyword '%s', expected 'example'." % p[1],
+                 p.lineno(1), self.path))
         if len(p) > 4:
             seen_fields = set()
             for example_field in p[6]:
